@@ -174,6 +174,10 @@ def run(ctx: Ctx) -> None:
     r07_4(ctx)
     ctx.rule("R07.6", "edge genes of a core come from the lookup in its own cyclic order", floor=2)
     r07_6(ctx)
+    ctx.rule("R07.7", "the sorted sweep over circular intervals is closed by a last/first comparison", floor=1)
+    c03.r03_7(ctx, "R07.7")
+    ctx.rule("R07.8", "distances used by detection are wrap-aware", floor=4)
+    c03.r03_6(ctx, "R07.8")
     # R07.5 = R03.5 recorded under this property
     before = len(ctx.obs)
     c03.r03_5(ctx)
